@@ -209,11 +209,26 @@ def run(res, tier, rng):
         if cm != cs:
             res.violation("correspondence", "model differs from the dictionary spec (model/harness bug)",
                           input=dict(history=h, queries=qs))
+    mixed = ["a", "b", 1, 2, 2.5, None, ("t",), b"x"]
+    for _ in range(600 if tier == "quick" else 10000):
+        h = [([rng.choice(mixed) for _ in range(rng.randint(0, 3))], rng.choice([None, 0, 1, "x"])) for _ in range(rng.randint(1, 8))]
+        qs = [[rng.choice(mixed) for _ in range(rng.randint(0, 4))] for _ in range(5)] + [k for k, _ in h]
+        form = rng.choice(["list", "tuple"])
+        res.evaluations += 1
+        try:
+            ci = canon_obs(observe_impl(h, qs, forms[form]))
+        except Exception as e:  # noqa
+            ci = dict(len=Exc(type(e).__name__))
+        cs = canon_obs(spec_obs(h, qs))
+        if ci != cs:
+            bad = [f for f in cs if ci.get(f) != cs[f]]
+            res.violation("property", "TrieDict with tokens of mixed types is not the dictionary of its history on: %s" % ",".join(bad),
+                          input=dict(history=repr(h), queries=repr(qs), keyform=form), impl={f: repr(ci.get(f)) for f in bad}, expected={f: repr(cs[f]) for f in bad})
     res.nontrivial = nontriv
     res.rule = ("exhaustive: every assignment history of length <= %d over keys of length 0..3 on {a,b} x values {None,1} "
                 "(length %d restricted to keys of length <= 2), all query methods on all 31 keys of length 0..4; "
                 "then %d seeded random histories (length 1..12, wider token alphabet incl. empty and multi-char tokens, "
-                "str/list/tuple keys); every history replayed on one object observed before the first and after every assignment. Non-trivial = distinct history with >= 2 assignments or using the empty key."
+                "str/list/tuple keys), histories over tokens of mixed types (str, int, float, None, tuple, bytes) against the dictionary specification; every history replayed on one object observed before the first and after every assignment. Non-trivial = distinct history with >= 2 assignments or using the empty key."
                 % (depth - 1 if tier == "quick" else 3, depth, nrand))
     res.extra["exhaustive_histories"] = n_exh
     res.extra["random_histories"] = nrand
